@@ -6,7 +6,7 @@ import random
 from .. import wire
 from ..msgs import build_msgs
 from ..oracles import C01Monitor, trace_summary
-from ..world import InternalError, RandomPlan, Runner, World
+from ..world import InternalError, Plan, RandomPlan, Runner, World
 
 PROP = "C15"
 LEVEL = "exploration"
@@ -66,6 +66,14 @@ def gen_cases(tier, seed):
                 cases.append({"cfg": base, "faults": None, "cancel": None, "seed": 0, "drops": [a]})
                 for b in range(a + 1, n + 1):
                     cases.append({"cfg": base, "faults": None, "cancel": None, "seed": 0, "drops": [a, b]})
+    # one kind of PDU never arrives (every copy lost): the retry procedure which waits for it runs into its limit, the transaction is
+    # cancelled / abandoned by the timers - every further completion needs its own, matching Transaction-Finished
+    for kind, mode, closure in (("ACK_FIN", "ack", False), ("ACK_EOF", "ack", False), ("FIN", "ack", False), ("FIN", "unack", True), ("NAK", "ack", False), ("EOF", "ack", False)):
+        for limit in (1, 2, 3):
+            for ind in ([True, True, True, True], [False, True, False, True], [True, False, True, False]):
+                base = {"mode": mode, "closure": closure, "imm_nak": limit % 2 == 0, "seg": 4, "size": 9, "ind": ind, "msgs": None, "cks": "crc32",
+                        "ack_limit": limit, "nak_limit": limit, "check_limit": limit}
+                cases.append({"cfg": base, "faults": None, "cancel": None, "seed": 0, "silence_kind": kind, "drop_fd": kind == "NAK"})
     for mode in ("ack", "unack"):
         for off in (0, 4, 8):
             for sw2 in (True, False):
@@ -342,6 +350,21 @@ def run_empty_fd(case):
         return {"viol": viol, "obs": obs, "sig": case, "sample": None}
 
 
+class SilenceKind(Plan):
+    """every copy of one kind of PDU is lost (for NAK: also the first copy of the File Data PDU at offset 4, so that there is something to ask for)"""
+
+    def __init__(self, kind, drop_fd):
+        super().__init__()
+        self.kind, self.drop_fd = kind, drop_fd
+
+    def on_emit(self, idx, item):
+        d = item["d"]
+        if d.get("kind") == self.kind or (self.drop_fd and d.get("kind") == "FD" and d.get("offset") == 4 and not any(a[1] == "drop-fd" for a in self.applied)):
+            self.applied.append((idx, "drop-fd" if d.get("kind") == "FD" else "drop", wire.short(d), item["side"]))
+            return []
+        return [("now", item["raw"])]
+
+
 def run_case(case):
     if case.get("t") == "empty_fd":
         return run_empty_fd(case)
@@ -355,6 +378,9 @@ def run_case(case):
 
             plan = EnumPlan({str(i): "drop" for i in case["drops"]})
             obs["enumerated_loss_runs"] = 1
+        if case.get("silence_kind"):
+            plan = SilenceKind(case["silence_kind"], case.get("drop_fd"))
+            obs["runs_with_one_pdu_kind_never_arriving"] = 1
         if case["faults"]:
             sc = case["faults"]
             plan = RandomPlan(case["seed"], {"drop": 0.3 * sc, "dup": 0.2 * sc, "delay": 0.3 * sc, "late": 0.05 * sc})
@@ -400,7 +426,7 @@ def run_case(case):
         if plan is not None and plan.applied:
             obs["faulty_runs"] = 1
         for x in viol:
-            x["cfg"] = {k: cfg[k] for k in ("mode", "closure", "size", "seg", "ind", "msgs", "metadata_only", "imm_nak")}
+            x["cfg"] = {k: cfg.get(k) for k in ("mode", "closure", "size", "seg", "ind", "msgs", "metadata_only", "imm_nak")}
             x["cancel"] = case["cancel"]
             x["trace"] = trace_summary(w, r, 60)
         sig = case if judged >= 3 else None
@@ -419,5 +445,5 @@ def finalize(ctx):
 
 
 REQUIRED = {"indications_judged": 5000, "metadata_recv_checked": 500, "file_segment_recv_checked": 500, "eof_recv_checked": 300, "eof_sent_checked": 300,
-            "finished_pdu_vs_indication_checked": 200, "messages_to_user_checked": 100, "originating_id_rule_checked": 100, "cancelled_runs": 100, "faulty_runs": 100,
+            "runs_with_one_pdu_kind_never_arriving": 40, "finished_pdu_vs_indication_checked": 200, "messages_to_user_checked": 100, "originating_id_rule_checked": 100, "cancelled_runs": 100, "faulty_runs": 100,
             "completion_indicated_S": 200, "completion_indicated_D": 200, "judged_on_reused_handlers": 200, "enumerated_loss_runs": 50}
